@@ -24,6 +24,10 @@ pub enum ErrKind {
     Crash,
     /// only injected on flush calls (on a write it is a retry request)
     Interrupted,
+    /// not an error return at all: the caller's writer PANICS inside this
+    /// call (the builder call unwinds; the caller catches it). Only used for
+    /// disturber tasks: what other builders emit must not depend on it.
+    Panic,
 }
 
 pub const INJECTABLE: [ErrKind; 8] = [
@@ -51,6 +55,7 @@ impl ErrKind {
             ErrKind::WriteZero => "WriteZero",
             ErrKind::Crash => "Crash",
             ErrKind::Interrupted => "Interrupted",
+            ErrKind::Panic => "PanicsInsideTheCall",
         }
     }
     pub fn from_name(s: &str) -> Option<ErrKind> {
@@ -66,6 +71,7 @@ impl ErrKind {
             "WriteZero" => ErrKind::WriteZero,
             "Crash" => ErrKind::Crash,
             "Interrupted" => ErrKind::Interrupted,
+            "PanicsInsideTheCall" => ErrKind::Panic,
             _ => return None,
         })
     }
@@ -84,6 +90,7 @@ impl ErrKind {
             // an error of a kind nothing else produces
             ErrKind::Crash => io::ErrorKind::ConnectionAborted,
             ErrKind::Interrupted => io::ErrorKind::Interrupted,
+            ErrKind::Panic => io::ErrorKind::Other,
         }
     }
     pub fn of_io(k: io::ErrorKind) -> Option<ErrKind> {
@@ -243,6 +250,21 @@ pub struct Plan {
     pub vectored: bool,
     /// representation of every error this file returns (Interrupted included)
     pub err_repr: ErrRepr,
+    /// > 0: the writer is RE-ENTRANT — inside every n-th write call it builds
+    /// another small FST with the library (in memory) before it answers, and
+    /// checks those bytes against the same build done outside any callback
+    pub reenter_every: usize,
+}
+
+/// Message of the panic a writer raises for `ErrKind::Panic`.
+pub const SINK_PANIC: &str = "sim: the caller's writer panics inside write()";
+
+fn small_build() -> Result<Vec<u8>, String> {
+    let mut b = fst::MapBuilder::memory();
+    for (k, v) in [(&b"a"[..], 1u64), (b"ab", 70_000), (b"abc", 3), (b"b", 1 << 40), (b"bb", 0)] {
+        b.insert(k, v).map_err(|e| format!("{:?}", e))?;
+    }
+    b.into_inner().map_err(|e| format!("{:?}", e))
 }
 
 impl Plan {
@@ -258,10 +280,11 @@ impl Plan {
             fault_flush: None,
             vectored: false,
             err_repr: ErrRepr::Message,
+            reenter_every: 0,
         }
     }
     pub fn is_clean(&self) -> bool {
-        Plan { err_repr: ErrRepr::Message, ..self.clone() } == Plan::clean()
+        Plan { err_repr: ErrRepr::Message, reenter_every: 0, ..self.clone() } == Plan::clean()
     }
 }
 
@@ -328,6 +351,11 @@ pub struct SinkState {
     pub first_fault_event: Option<u64>,
     pub first_fault_kind: Option<ErrKind>,
     pub first_fault_op: Option<u32>,
+    /// reference bytes of the small build a re-entrant writer repeats
+    pub reenter_ref: Option<Vec<u8>>,
+    pub reentered: u64,
+    /// a build started inside a write callback gave other bytes / failed
+    pub reentrant_bad: Option<String>,
 }
 
 pub type SinkHandle = Rc<RefCell<SinkState>>;
@@ -356,6 +384,37 @@ impl SinkState {
             first_fault_event: None,
             first_fault_kind: None,
             first_fault_op: None,
+            reenter_ref: None,
+            reentered: 0,
+            reentrant_bad: None,
+        }
+        .with_reenter_ref()
+    }
+
+    fn with_reenter_ref(mut self) -> SinkState {
+        if self.plan.reenter_every > 0 {
+            self.reenter_ref = small_build().ok();
+        }
+        self
+    }
+
+    fn reenter(&mut self) {
+        self.reentered += 1;
+        let got = small_build();
+        if self.reentrant_bad.is_none() {
+            match (&got, &self.reenter_ref) {
+                (Ok(b), Some(r)) if b == r => {}
+                (Ok(b), Some(r)) => {
+                    self.reentrant_bad = Some(format!(
+                        "a small map built inside write() call {} has {} bytes that differ from the {} bytes of the same build outside any callback",
+                        self.w_idx,
+                        b.len(),
+                        r.len()
+                    ))
+                }
+                (Err(e), _) => self.reentrant_bad = Some(format!("a small map built inside write() call {} failed: {}", self.w_idx, e)),
+                (Ok(_), None) => {}
+            }
         }
     }
 
@@ -384,6 +443,7 @@ impl SinkState {
             fault_flush: self.plan.fault_flush,
             vectored: self.plan.vectored,
             err_repr: self.plan.err_repr,
+            reenter_every: self.plan.reenter_every,
         }
     }
 
@@ -529,6 +589,9 @@ impl SinkState {
                 return Err(self.plan.err_repr.make(kind.io_kind(), "sim: sticky fault"));
             }
         }
+        if self.plan.reenter_every > 0 && self.w_idx % self.plan.reenter_every == 0 {
+            self.reenter();
+        }
         if buf.is_empty() {
             // io::Write allows Ok(0) for an empty buffer; nothing to decide
             self.push_ev(EvKind::Write, 0, 0);
@@ -543,6 +606,13 @@ impl SinkState {
                 self.rec_w(WStep::Intr);
                 self.push_ev(EvKind::Write, buf.len(), -1);
                 Err(self.plan.err_repr.make(io::ErrorKind::Interrupted, "sim: EINTR"))
+            }
+            WStep::Err(ErrKind::Panic) => {
+                self.fired.err += 1;
+                self.note_fault(ev, ErrKind::Panic);
+                self.rec_fault_or(step);
+                self.push_ev(EvKind::Write, buf.len(), -2);
+                panic!("{}", SINK_PANIC);
             }
             WStep::Err(kind) => {
                 self.intr_run = 0;
